@@ -1042,7 +1042,7 @@ End WCost.
 Definition quiet_tok (t : tok) : bool :=
   match t with
   | TLoopBegin _ | TLoopBreak | TLoopEnd | TDiv _ _ _ | TSub _ | TValue _ _ _
-  | TTime _ | TPlayFrom _ | TTimeSignature _ => false
+  | TTime _ | TPlayFrom _ | TTimeSignature _ | TRpnDirect _ _ (* may write a runtime error entry *) => false
   | _ => true
   end.
 
